@@ -1,4 +1,5 @@
 import PycsepVerif.Proofs.ReaderText
+import PycsepVerif.Proofs.PersistText
 import PycsepVerif.Properties.C19
 
 /-!
@@ -181,7 +182,51 @@ theorem ndk_file_one_event_per_record (recs : List (Block × SecEvent × Int)) (
   simp
   exact hd
 
+/-- CSEP CSV, file level, csv quoting included: on the characters a csv writer produces for ANY list of records (cells
+    with delimiters, quotes, line ends are quoted; "\r\n" record ends) the text model of `csep_ascii` is the token model
+    on the records' tokens, in file order -/
+theorem csep_file_refines_tokens (recs : List (List Str)) :
+    csepFileQ (PersistText.writeRecords recs)
+      = (match recs.mapM csepTokens with | none => .error .badRow | some ls => decodeCsep ls) := by
+  unfold csepFileQ
+  rw [PersistText.csvRead_writeRecords]
+  rfl
+
+/-- CSEP CSV, text to events: a file written from the events `es` — each record any list of cells that tokenises to the
+    event's encoding (so: any spelling of the numbers, any catalog-id and event-id cells, quoted or not), header optional
+    — loads as one event per record, in file order, time floored to the millisecond -/
+theorem csep_file_one_event_per_record (recs : List (List Str × MsEvent)) (header : Bool)
+    (hwf : ∀ r ∈ recs, r.2.wf) (htok : ∀ r ∈ recs, csepTokens r.1 = some (encodeCsep r.2)) :
+    csepFileQ (PersistText.writeRecords ((if header then [PersistText.headerRecord] else []) ++ recs.map (·.1)))
+      = .ok (recs.map fun r => ⟨r.2.usTotal / 1000, r.2.lat, r.2.lon, r.2.depth, r.2.mag⟩) := by
+  rw [csep_file_refines_tokens]
+  have hrecs : (recs.map (·.1)).mapM csepTokens = some ((recs.map (·.2)).map encodeCsep) := by
+    induction recs with
+    | nil => rfl
+    | cons r rs ih =>
+      have h1 := htok r (by simp)
+      have h2 := ih (fun x hx => hwf x (by simp [hx])) (fun x hx => htok x (by simp [hx]))
+      simp only [List.map_cons, List.mapM_cons, h1, h2]
+      rfl
+  have hd := decode_encode_csep (recs.map (·.2)) (by
+    intro e he
+    obtain ⟨r, hr, rfl⟩ := List.mem_map.mp he
+    exact hwf r hr) header
+  have hh : csepTokens PersistText.headerRecord = some .header := by decide +kernel
+  cases header
+  · simp only [Bool.false_eq_true, if_false, List.nil_append] at hd ⊢
+    rw [hrecs]
+    simpa [List.map_map, Function.comp_def] using hd
+  · simp only [if_true, List.cons_append, List.nil_append, List.mapM_cons, hh] at hd ⊢
+    rw [hrecs]
+    simpa [List.map_map, Function.comp_def] using hd
+
 /-! ### non-vacuity: real text, evaluated by the kernel -/
+
+/-- a CSEP CSV record whose event id needs quoting (delimiter, doubled quote), CRLF record ends, a header -/
+example : csepFileQ "lon,lat,mag,time_string,depth,catalog_id,event_id\r\n-0.5,1e1,5.,1970-01-01T00:00:01.5,.5,7,\"a,\"\"b\"\" ;\"\r\n".toList
+    = .ok [⟨1500, 10, -1/2, 1/2, 5⟩] := by decide +kernel
+
 
 /-- a hypocenter line of the published catalog has the documented layout -/
 example : ndkLine1 "PDE  2005/01/01 01:20:05.4  13.78  -88.78 193.1 5.0 0.0 EL SALVADOR             ".toList
